@@ -67,6 +67,11 @@ def gen_strings(ctx):
                     'FOO.TXT;1', 'Z' * 8 + '.ZZZ', 'AB.C', 'A.BCDE', 'NAME.EXT1']
     for s in ascii_shapes:
         yield s
+    # names that look legal except for one control / space character at either end (anchored patterns, strip() calls)
+    for base in ('ABC', 'A' * 8, 'A' * 7, 'FOO.TXT', 'ABC_1', 'A' * 30, 'A' * 31, 'X'):
+        for c in '\n\r\t \x00\x0b\x0c\x1f\x7f\x85\u2028\u00a0':
+            yield base + c
+            yield c + base
     rng = ctx.rng
     pool = list('abzABZ019_.-; ') + sp[:: max(1, len(sp) // 60)] + ['中', '\U0001F600', 'é', 'İ', 'ǅ']
     for _ in range(4000 if ctx.quick else 80000):
@@ -272,9 +277,54 @@ def gen_facade_sets(ctx):
             yield list(dict.fromkeys(names))
 
 
+def iso_facade_versions(ctx):
+    """ISO9660 facade on a Rock Ridge image: identifiers that differ in the version or the extension only are different
+    entries; each is accepted, gets a Rock Ridge name that is the identifier itself (it is already legal), and reads back
+    its own content under its own path, also after a reopen"""
+    import pycdlib
+    from pycdlib import facade
+    idents = ['DATA.BIN;1', 'DATA.BIN;2', 'DATA.BIN;32767', 'DATA.TXT;1', 'DATA.B;3', 'X.Y;7', 'LONGNAME.EXT;12']
+    for lvl in (1, 2, 3):
+        rp = {'kind': 'iso-facade-versions', 'lvl': lvl}
+        for ident in idents:
+            got = facade.iso_path_to_rr_name('/DIR1/' + ident, lvl, False)
+            if got != ident:
+                ctx.violation('C18.identity/rr-name-of-legal-identifier', 'iso_path_to_rr_name(%r, level %d) = %r: a legal identifier is not kept' % (ident, lvl, got), rp)
+        iso = pycdlib.PyCdlib()
+        iso.new(interchange_level=lvl, rock_ridge='1.09')
+        fac = iso.get_iso9660_facade()
+        fac.add_directory('/DIR1')
+        added = {}
+        for i, ident in enumerate(idents):
+            data = ('v-%d-%s' % (i, ident)).encode()
+            try:
+                fac.add_fp(io.BytesIO(data), len(data), '/DIR1/' + ident)
+                added[ident] = data
+            except Exception as e:  # noqa
+                ctx.violation('C18.facade/add-refused', 'ISO9660 facade add_fp(%r) at level %d refused because of the derived Rock Ridge name: %s' % ('/DIR1/' + ident, lvl, e), rp)
+        out = io.BytesIO()
+        iso.write_fp(out)
+        iso.close()
+        iso2 = pycdlib.PyCdlib()
+        iso2.open_fp(io.BytesIO(out.getvalue()))
+        fac2 = iso2.get_iso9660_facade()
+        for ident, data in added.items():
+            buf = io.BytesIO()
+            try:
+                fac2.get_file_from_iso_fp(buf, '/DIR1/' + ident)
+            except Exception as e:  # noqa
+                ctx.violation('C18.facade/lookup-fails', 'ISO9660 facade lookup of %r fails: %r' % (ident, e), rp)
+                continue
+            if buf.getvalue() != data:
+                ctx.violation('C18.facade/wrong-entry', 'ISO9660 facade lookup of %r returns another entry' % ident, rp)
+        iso2.close()
+        ctx.count(key=('iso-facade-versions', lvl), kind='facade', nontrivial=True)
+
+
 def run(ctx):
     strings = list(dict.fromkeys(gen_strings(ctx)))
     run_fn(ctx, strings)
+    iso_facade_versions(ctx)
     for names in gen_facade_sets(ctx):
         for lvl in (1, 3, 4):
             facade_oracle(ctx, names, lvl)
@@ -292,6 +342,8 @@ def replay(ctx, obj):
     if r.get('kind') == 'mangle':
         s = ''.join(chr(c) for c in r['s'])
         run_fn(ctx, [s])
+    elif r.get('kind') == 'iso-facade-versions':
+        iso_facade_versions(ctx)
     elif r.get('kind') == 'facade-nested':
         facade_nested(ctx, ''.join(chr(c) for c in r['dir']), r['lvl'])
     elif r.get('kind') == 'facade':
